@@ -5,7 +5,7 @@ class C12(Prop):
     id = "C12"
     harness = "c06"
     props_file = "Properties/C12.v"
-    coq_modules = ["Stop/Check.v", "Stop/CheckProofs.v", "Stop/GenStop.v", "Stop/GenStopProofs.v"]
+    coq_modules = ["Stop/Check.v", "Stop/CheckProofs.v", "Stop/GenStop.v", "Stop/GenStopProofs.v", "Stop/GenStopSim.v"]
     level = "proof"
     rule = ("same assembly as C06 (real lifecycle service of both engines, fake plugins); Stop(force) at a random "
             "position of a random environment schedule (quick) or at every position (thorough), gates left as they are "
